@@ -3,7 +3,7 @@ import numpy as np
 from hypothesis import strategies as st
 
 from gen.crystals import build_crystal, crystal_with_supercell, keys, qpoint_strategy
-from oracles.models import dense_fc, own_ops
+from oracles.models import dense_fc, own_ops, sym_nac
 from vlib.case import Out, Sub, relerr, rng_from
 
 PROPERTY = "C03"
@@ -43,6 +43,9 @@ def _build(spec, **kw):
 
 
 def _D(ph, q, lang="C"):
+    if ph.dynamical_matrix.is_nac():
+        ph.dynamical_matrix.run(q)  # NAC classes take no lang argument
+        return ph.dynamical_matrix.dynamical_matrix.copy()
     ph.dynamical_matrix.run(q, lang=lang)
     return ph.dynamical_matrix.dynamical_matrix.copy()
 
@@ -109,6 +112,7 @@ def run_basic(spec):
 def rot_specs(draw, tier):
     b = draw(base_specs(tier, noise=True, kinds=("hall", "proto", "proto")))
     b["q"] = draw(st.lists(st.floats(-1, 1, allow_nan=False, width=64), min_size=3, max_size=3))
+    b["nac"] = draw(st.sampled_from(["none", "none", "wang", "gonze"]))
     return b
 
 
@@ -126,10 +130,26 @@ def run_rotation(spec):
         return Out(nontrivial=False, classes=["skipped_noisy_ops"])
     ph.force_constants = np.array(fcs[prim.p2s_map], order="C") if spec["compact"] else fcs
     q = np.array(spec["q"], dtype=float)
+    nac = spec.get("nac", "none")
+    nat = float(np.abs(fcs).max() / prim.masses.min())
+    if nac != "none":
+        if noise or np.linalg.norm(np.linalg.inv(prim.cell) @ (q - np.rint(q))) < 5e-2:
+            return Out(nontrivial=False, classes=["skipped_nac_case"])
+        try:
+            Z, eps = sym_nac(prim, rng)
+        except ValueError:
+            return Out(nontrivial=False, classes=["skipped_nac_case"])
+        ph.nac_params = {"born": Z, "dielectric": eps, "factor": 14.4, "method": nac}
+        nat = max(nat, 14.4 * 4 * np.pi / prim.volume * float(np.abs(Z).max()) ** 2 / float(np.linalg.eigvalsh(eps).min()) / prim.masses.min())
     d = _D(ph, q)
+    if nac != "none":
+        if np.abs(d - d.conj().T).max() > 1e-12 * nat:
+            return Out(ok=False, msg="D(q) with %s NAC is not Hermitian at q=%s" % (nac, q.tolist()))
+        if np.abs(_D(ph, -q) - d.conj()).max() > 1e-10 * nat:
+            return Out(ok=False, msg="D(-q) != conj D(q) with %s NAC at q=%s" % (nac, q.tolist()))
     ev = np.linalg.eigvalsh(d)
-    sc = max(np.abs(ev).max(), 1e-300)
-    tol = max(1e-9, 2000 * noise)
+    sc = max(np.abs(ev).max(), nat)
+    tol = max(1e-9, 2000 * noise) if nac != "gonze" else 1e-6
     rs = np.unique(own_ops(scell)[0], axis=0)
     pm = prim.primitive_matrix  # relative to the supercell
     ops = []
@@ -145,7 +165,7 @@ def run_rotation(spec):
         if e > tol:
             return Out(ok=False, info={"err": e}, msg="spectrum(Rq) != spectrum(q): %.3e for R^T=%s q=%s (noise %g, %d ops)"
                        % (e, rp.T.tolist(), q.tolist(), noise, len(ops)))
-    classes = ["nops:%d" % min(len(ops), 48), "noise" if noise else "exact", spec["crystal"]["kind"]]
+    classes = ["nops:%d" % min(len(ops), 48), "noise" if noise else "exact", spec["crystal"]["kind"], "nac:" + nac]
     rp_own = np.unique(own_ops(prim)[0], axis=0)
     if len(rp_own) == len(ops):
         classes.append("pointgroup_kept")
@@ -158,7 +178,7 @@ def run_rotation(spec):
     else:
         classes.append("pointgroup_lowered")
     nontriv = len(ops) > 2 and np.abs(q).min() > 1e-3
-    return Out(ok=True, nontrivial=nontriv, classes=classes, info={"err": worst})
+    return Out(ok=True, nontrivial=nontriv, classes=classes, info={"err": worst, "err_nac_" + nac: worst if not noise else 0.0})
 
 
 @st.composite
